@@ -148,6 +148,46 @@ pub fn check(c: &Case) -> CheckResult {
         let (sig, msg) = diff(&got2, &want).unwrap_or(("layout".into(), "second layout differs".into()));
         return Err(viol!(format!("fibex:layout-dependence:{}", sig), "a second layout of the same model loads differently: {}\n  layout2={:?}", msg, c.layout2));
     }
+    // history: the same paths hold other content of the same size and the same modification time a moment later (a file
+    // edited in place and re-stamped, `cp -p`, a reproducible build) — loading returns what the files hold NOW
+    if c.absent_id % 4 == 0 {
+        let mut variant = c.model.clone();
+        let mut changed = false;
+        for f in variant.frames.iter_mut() {
+            if let Some(ch) = f.short_name.chars().next() {
+                if ch.is_ascii_alphanumeric() {
+                    let repl = if ch == 'Q' { 'R' } else { 'Q' };
+                    f.short_name = format!("{}{}", repl, &f.short_name[1..]);
+                    changed = true;
+                }
+            }
+        }
+        if changed {
+            let stamp = std::time::UNIX_EPOCH + std::time::Duration::from_secs(1_600_000_000);
+            let docs_a: Vec<Vec<u8>> = fx::render(&c.model, &c.layout).into_iter().map(|s| s.into_bytes()).collect();
+            let docs_b: Vec<Vec<u8>> = fx::render(&variant, &c.layout).into_iter().map(|s| s.into_bytes()).collect();
+            let restamp = |paths: &[String]| {
+                for p in paths {
+                    if let Ok(f) = std::fs::OpenOptions::new().write(true).open(p) {
+                        let _ = f.set_modified(stamp);
+                    }
+                }
+            };
+            let paths = write_docs(&docs_a, "r");
+            restamp(&paths);
+            let first = guard(|| gather_fibex_data(FibexConfig { fibex_file_paths: paths.clone() })).map_err(|p| Violation::from_panic("gather_fibex_data", &p))?;
+            let paths2 = write_docs(&docs_b, "r");
+            restamp(&paths2);
+            let second = guard(|| gather_fibex_data(FibexConfig { fibex_file_paths: paths2 })).map_err(|p| Violation::from_panic("gather_fibex_data (reload)", &p))?;
+            if let Some((sig, msg)) = diff(&first, &want) {
+                return Err(viol!(format!("fibex:{}", sig), "{} (load before the in-place edit)", msg));
+            }
+            let want_b = fx::expected(&variant);
+            if let Some((sig, msg)) = diff(&second, &want_b) {
+                return Err(viol!(format!("fibex:reload:{}", sig), "after the files were rewritten in place (same paths, sizes and modification times) loading returns the old content: {}", msg));
+            }
+        }
+    }
     // lookups
     if let Some(model) = &got {
         let mut ids: Vec<u32> = c.model.frames.iter().filter_map(|f| f.id.strip_prefix("ID_").and_then(|n| n.parse::<u32>().ok())).collect();
